@@ -243,4 +243,21 @@ def denied (f : Flags) (s : St) : IoOp → Option Err
   | .system _ _ => if f.noExec then some .noExecSystem else none
   | _ => none
 
+/-! ### a reused Interpreter
+
+`setExecuteConfig` copies the three flags and the open function from the Config of EACH `Execute` call, and `closeAll`
+leaves no stream behind, so every call starts from the initial state under its own configuration. -/
+
+structure RunCfg where
+  flags : Flags
+  existing : List Bytes
+  args : List Bytes
+  stdinRecs : Nat
+  ops : List IoOp
+
+def execute (r : RunCfg) : List (List Effect) := trace r.flags (St.init r.existing r.args r.stdinRecs) r.ops
+
+/-- the effect traces of successive `Execute` calls on one Interpreter -/
+def session (runs : List RunCfg) : List (List (List Effect)) := runs.map execute
+
 end GoawkModel.C12
